@@ -10,7 +10,7 @@ from verifkit.props import C01
 ID = "C07"
 THM_MODULES = ["Minicbor.Thm.C07"]
 P = "Minicbor.C07."
-REQUIRED = ["Minicbor.C07.len_example"]
+REQUIRED = [P + n for n in "len_exact_builtin len_exact_list len_exact_token len_exact_tokens exact_buffer arity_needed".split()]
 PACKAGES = ["hcore"]
 RULE = ("`tenc <type> <value>` over the C01 corpus (every registered built-in instantiation, boundary + seeded random values) and "
         "`tokenc <token list>`: every Token variant alone at every boundary payload (all 2^k±3 integers per width, all 256 simple "
